@@ -141,6 +141,26 @@ CLAIMED = {
         note="iterative solvers are oracles (compared at 2*errTol). Known finding C08-P: swapping the field order changes the wall velocity "
              "(0.6264 vs 0.6190) although every proved piece is covariant.",
         technique="Lean 4 proof over hand model + metamorphic end-to-end monitor", ref="4/C08"),
+    "C13": dict(
+        text="Lean 4 theorems (Props.C13): the regenerated integrand and the four weights are exactly (1, pz^2, E^2, E pz) * p_par/(4 pi^2 E) * "
+             "(dpz/drho_z)(dp_par/drho_par); d^3p/((2pi)^3 E) in cylindrical coordinates (Mathlib polar coordinates) and the change of "
+             "variables to the compact grid coordinates with the Jacobians of C17 (improper integrals, no integrability hypothesis); the "
+             "returned moment is the double Gauss-Chebyshev-Lobatto sum and equals the double integral for every deviation whose integrand "
+             "times the two square-root factors is a polynomial of degrees <= 2N-1, <= 2N-3; chained: returned moment = momentum-space "
+             "integral; linearity. Real getDeltas compared with the model and with closed-form integrals on the exactness family.",
+        note="exactness class is a condition on the integrand (delta f times weight), as the property states; T30/T33 assembly is proved in C04.",
+        technique="Lean 4 proof over regenerated formulas + hand model + correspondence + exactness search", ref="4/C13"),
+    "C12": dict(
+        text="Lean 4 theorems (Props.C12): regenerated source term vanishes when the three profile derivatives vanish; the spectral derivative "
+             "matrix annihilates constant profiles (and any zero-row-sum FD matrix does); non-singular operator => zero deviation; the "
+             "operator in any basis pair = cardinal operator composed with the Kronecker product of the collocation matrices (no hypothesis), "
+             "with Chebyshev derivative matrix = cardinal derivative matrix times collocation matrix proved from C16 => the represented "
+             "function and all moments are basis independent; C-order reshape is a bijection. Entry-wise correspondence of the operator data "
+             "flow with the real buildLinearEquations (4 basis pairs, 1-2 particles), residual/homogeneity/basis-independence monitors and "
+             "finite-difference -> spectral convergence for T, v and field variations separately.",
+        note="np.linalg.solve is an oracle (residual monitored); the FD convergence RATE is not proved (monitor requires decrease with M): partial. "
+             "Defect fixed in /repo edf9260 (FD branch used dT/dchi for dv/dchi).",
+        technique="Lean 4 proof over regenerated formulas + data-flow model + correspondence + monitors", ref="4/C12"),
 }
 
 NOT_YET = "check not built yet in this round (design in DESIGN.md section 4); listed here until its Lean module and harness are committed"
